@@ -208,7 +208,12 @@ class TracerScenario:
         base_sub = self.ri.on_subscript
         def on_subscript(obj: V, key: V, node: ast.AST, st: State) -> Optional[V]:
             if isinstance(obj, S) and obj.name == "self.cache":
-                return self.func_value if self.func_value is not None else U("cache")
+                fv_ = self.func_value if self.func_value is not None else U("cache")
+                shape = self._cache_entry_shape()
+                if shape is not None and not isinstance(fv_, U):
+                    # the entries are tuples that hold the function at one position (next to the code object they keep alive)
+                    return K(tuple(fv_ if i_ == shape[0] else S("cache-entry-part") for i_ in range(shape[1])))
+                return fv_
             if isinstance(obj, S) and obj.name == "self.traces":
                 return self.trace_in_table if self.trace_in_table is not None else U("traces[]")
             return base_sub(obj, key, node, st)
@@ -277,6 +282,21 @@ class TracerScenario:
             return S("self." + attr)
         return RepoInterp.on_attr(self.ri, obj, attr, node, st)
 
+    def _cache_entry_shape(self) -> Optional[Tuple[int, int]]:
+        """(position of the function, length) when the tracer stores TUPLES in self.cache - read off the one statement that
+        stores what the look-up returned: `self.cache[key] = (code, get_func(frame))`; None when it stores the function itself"""
+        if getattr(self, "_shape_done", False):
+            return self._shape
+        self._shape_done, self._shape = True, None
+        for m in self.cls.methods.values():
+            for x in ast.walk(m.node):
+                if isinstance(x, ast.Assign) and any(isinstance(t, ast.Subscript) and isinstance(t.value, ast.Attribute) and t.value.attr == "cache" for t in x.targets) \
+                        and isinstance(x.value, ast.Tuple):
+                    for i_, el in enumerate(x.value.elts):
+                        if isinstance(el, ast.Call) and (dotted(el.func) or "").split(".")[-1] == "get_func":
+                            self._shape = (i_, len(x.value.elts))
+        return self._shape
+
     def _is_cache_accessor(self, fi: FunctionInfo) -> bool:
         """a method of the tracer whose whole job is the memoised look-up: it reads/writes `self.cache` and calls the look-up"""
         if fi is self.fi or fi.cls is not self.cls:
@@ -292,6 +312,9 @@ class TracerScenario:
             # abstraction boundary: it answers with the scenario's function, however the cache represents its entries
             m_ = self.repo.method(self.cls, meth)
             if m_ is not None and self._is_cache_accessor(m_):
+                # (a miss writes the cache: an effect that a call which is not sampled must not have)
+                if not self.cache_hit:
+                    st.effects.append(("setitem", "self.cache", args[0] if args else K(None), U("?")))  # a miss is remembered
                 return self.func_value
         # a symbolic program value S('val:<n>') / S('arg') is a plain instance of a user class of its own
         if len(args) == 1 and isinstance(args[0], S) and (args[0].name.startswith("val:") or args[0].name == "arg") and not kwargs:
